@@ -29,7 +29,7 @@ from rv import gen
 
 PLAN = {
     "quick": {"cases": 1200, "hashseeds": 3, "shards": 5, "timeout": 900, "min_nontrivial": 450},
-    "thorough": {"cases": 16000, "hashseeds": 8, "shards": 2, "timeout": 3000, "min_nontrivial": 6000},
+    "thorough": {"cases": 6000, "hashseeds": 8, "shards": 2, "timeout": 3000, "min_nontrivial": 2400},
 }
 if os.environ.get("RV_C19_CASES"):      # development knob: only the first N cases of the same case stream
     for _t in PLAN.values():
@@ -96,6 +96,7 @@ K_DOF0 = "c19:dof0-pvalue-nan"
 K_NEGLAM = "c19:neg-lambda-empty-cell-nan"
 K_DOCNAME = "c19:documented-lambda-name-rejected"
 K_NOINT = "c19:pearsonr:no-intercept"
+K_INTCOL = "c19:int-column-labels:unconditional-categorical"
 
 
 # =========================================================================== generators
@@ -174,13 +175,15 @@ def _column(rng, name, codes, dtype, extra_ok):
     return col
 
 
-def _probes(rng, names, nq, zmax):
+def _probes(rng, names, nq, zmax, cards=None, cap=700):
     out = []
     for _ in range(nq):
         X, Y = rng.sample(names, 2)
         rest = [c for c in names if c not in (X, Y)]
         zs = rng.choice([0, 1, 1, 2, 2, 3, zmax])
         Z = rng.sample(rest, min(zs, len(rest)))
+        while cards and Z and math.prod(cards[z] for z in Z) > cap:     # bounds the per-call cost (strata loop)
+            Z = Z[:-1]
         lams = rng.sample(NUMERIC_POOL, 2)
         rel = [rng.choice(list(NAMED)), rng.choice(lams + list(NAMED))]
         out.append({"X": X, "Y": Y, "Z": Z, "ztuple": rng.random() < 0.4, "lams": lams, "rel": rel,
@@ -217,7 +220,7 @@ def gen_disc(rng, tier):
     mode = rng.choice(["iid", "bn", "bn", "bn", "skew", "copy"])
     codes = _sample_codes(rng, cards, n, mode)
     names = _names(rng, ncols)
-    probes = _probes(rng, names, 3 if ncols >= 3 else 1, 4 if big else 3)
+    probes = _probes(rng, names, 3 if ncols >= 3 else 1, 4 if big else 3, cards=dict(zip(names, cards)))
     uncond = set()
     for p in probes:
         if not p["Z"]:
@@ -553,12 +556,35 @@ class Disc:
             return False
         return _close(got[0], want["stat"]) and got[2] == want["dof"]
 
+    # -- neutralised re-run for the integer-column-label mechanism
+    def neutralised_intcol(self, fn, X, Y, Z, lam, kw):
+        """structural predicate: unconditional test, X or Y is an integer column label and X or Y is a categorical
+        column; neutralised by renaming every column label to a str - the same call must then agree with the oracle."""
+        dts = {c["name"]: c["dtype"] for c in self.spec["cols"]}
+        if Z or all(isinstance(v, str) for v in (X, Y)) or not any(dts[v].startswith("cat") for v in (X, Y)):
+            return False
+        ren = {c["name"]: f"col_{c['name']}" for c in self.spec["cols"]}
+        r = self.ctx.call(fn, ren[X], ren[Y], [], self.df.rename(columns=ren), boolean=False, **kw)
+        if self.ctx.failed(r):
+            return False
+        try:
+            got = read_triple(r)
+        except Exception:
+            return False
+        want = oracle_cit(self.tables(X, Y, Z), lam)
+        return got[2] == want["dof"] and (_close(got[0], want["stat"]) or want["undefined"] or want["negzero"])
+
     def judge(self, r, X, Y, Z, lam, label, fn=None, lam_arg=None, kw=None, **detail):
         """compare one (statistic, p, dof) answer with the oracle; returns the parsed triple or None."""
         ctx = self.ctx
         detail = dict(detail, X=X, Y=Y, Z=list(Z), lam=lam)
         if ctx.failed(r):
-            ctx.violation(f"c19:exception:{r.type}@{r.where}", f"{label} raised {r!r}", **detail)
+            key = f"c19:exception:{r.type}@{r.where}"
+            if fn is not None and self.neutralised_intcol(fn, X, Y, Z, lam, kw or {}):
+                key = K_INTCOL
+            ctx.violation(key, f"{label} raised {r!r}" + ("; X / Y are integer column labels, Z is empty and X or Y is "
+                          "categorical: the same call on the frame with the columns renamed to str agrees with the oracle"
+                          if key == K_INTCOL else ""), **detail)
             return None
         try:
             got = read_triple(r)
@@ -669,6 +695,7 @@ def run_disc(spec, ctx):
     if not docnames:
         ctx.note("docstring-table-not-parsed")
     nontriv = False
+    doc_done = False
     rrng = random.Random(spec["perm_seed"])
     for qi, pr in enumerate(spec["probes"]):
         X, Y, Z, zt = pr["X"], pr["Y"], pr["Z"], pr["ztuple"]
@@ -698,11 +725,12 @@ def run_disc(spec, ctx):
             results[lam] = D.judge(r, X, Y, Z, float(lam), f"power_divergence(lambda_={lam!r})",
                                    fn=C.power_divergence, lam_arg=lam, kw={"lambda_": lam})
         r = D.call(C.power_divergence, X, Y, Z, zt, boolean=False)
-        D.judge(r, X, Y, Z, NAMED["cressie-read"], "power_divergence(default lambda_)")
+        D.judge(r, X, Y, Z, NAMED["cressie-read"], "power_divergence(default lambda_)", fn=C.power_divergence)
         for wname, lam in WRAPPERS.items():
             r = D.call(getattr(C, wname), X, Y, Z, zt, boolean=False)
-            results[wname] = D.judge(r, X, Y, Z, lam, f"{wname}()")
-        if qi == 0:
+            results[wname] = D.judge(r, X, Y, Z, lam, f"{wname}()", fn=getattr(C, wname))
+        if not doc_done and results.get("pearson") is not None:
+            doc_done = True
             for (dn, dv) in docnames:
                 r = D.call(C.power_divergence, X, Y, Z, zt, boolean=False, lambda_=dn)
                 if ctx.failed(r) and r.type == "ValueError" and "invalid string for lambda_" in r.msg:
@@ -711,6 +739,11 @@ def run_disc(spec, ctx):
                 else:
                     D.judge(r, X, Y, Z, dv, f"power_divergence(lambda_={dn!r}) [documented name]",
                             fn=C.power_divergence, lam_arg=dn, kw={"lambda_": dn})
+        # ---- documented refusal: X or Y inside Z
+        if qi == 0:
+            r = D.call(C.power_divergence, X, Y, list(Z) + [X], zt, boolean=False)
+            ctx.expect(ctx.failed(r) and r.type == "ValueError", "c19:x-in-z-not-refused",
+                       f"power_divergence with X inside Z was not refused with ValueError: {r!r}", X=X, Z=Z)
         # ---- exactly independent tables: statistic 0, p 1
         if indep:
             for k, got in results.items():
